@@ -154,3 +154,68 @@ def ragged_obligations(which: int):
                        bounds="ragged table: row of w0 cells, r1 rows of w1 cells, max(w0,w1)+extra declared columns, all unbounded symbolic ints",
                        encodes=KT_ENCODES, stubs=KT_STUBS))
     return out
+
+
+def bulk_obligations(which: int):
+    """Table.set_values / set_cells with a 3-row matrix whose middle sub-list may be empty, over the 16
+    templates with run lengths in 1..2 (concrete per process)."""
+    out = []
+    for r0 in (1, 2):
+        for r1 in (1, 2):
+            for c0 in (1, 2):
+                for c1 in (1, 2):
+                    for mode in ("values", "cells"):
+                        tpl = f"{r0},{r1},{c0},{c1}"
+                        quick = (tpl, mode) in (("2,2,2,2", "values"), ("1,2,2,1", "cells"))
+                        out.append(Obl(name=f"kt_bulk_set_{mode}_{r0}{r1}{c0}{c1}", module="h_ktab", func="kt_bulk_set", timeout=900, replay="r_h_ktab:bulk",
+                                       env={"VERIF_WHICH": str(which), "VERIF_TPL": tpl, "VERIF_BULK": mode}, extra={"tpl": [r0, r1, c0, c1], "mode": mode, "which": which},
+                                       weight=200, tier="quick" if quick else "thorough",
+                                       bounds=(f"Table.set_{mode}([[7, 8], [5] or [] (symbolic), [6]], (x, y)) on the template with row-runs {r0},{r1} and cell-runs {c0},{c1} after cached reads; "
+                                               "x <= 2, y <= 4 (inside, at the edge, beyond), probe <= (4, 7)"),
+                                       encodes=KT_ENCODES + ["src/odfdo/table.py:Table.set_values,set_cells", "src/odfdo/row.py:Row.set_values,set_cells"], stubs=KT_STUBS))
+    return out
+
+
+# measured seconds (quiet machine at depth 0 / loaded machine at depth 1) of the h_kget reader obligations
+KGET_SECS = {"kget_rows_small": (60, 420), "kget_cells_small_cols": (90, 425), "kget_cells_small_rows": (125, 730), "kget_column_small": (56, 300),
+             "kget_columns_range_small": (20, 25), "kget_values_small": (105, 1430), "ktrans_twice_small": (110, 1370), "ktrans_ragged": (55, 325),
+             "koptimize": (80, 55), "krstrip": (75, 95), "krstrip_styled_rows": (10, 10), "kget_area_negative_cols": (80, 245), "kget_area_negative_rows": (150, 505)}
+KGET_BOUNDS = {"kget_rows_small": "get_rows/traverse(start, end): repeats in 1..{r}, start <= {p}, end <= {p1}",
+               "kget_cells_small_cols": "get_cells/get_values(area): plain rows, cell-runs in 1..{r}, area corners <= {p}",
+               "kget_cells_small_rows": "get_cells/get_values(area): row-runs in 1..{r}, plain cells, area corners <= {p}",
+               "kget_column_small": "get_column/get_column_cells/get_column_values: repeats in 1..{r}, x <= {p}",
+               "kget_columns_range_small": "get_columns(range): cell-runs in 1..{r}, corners <= {p1}",
+               "kget_values_small": "get_values, iter_values, flat, cells, size: repeats in 1..{r}, probe <= {p}",
+               "ktrans_twice_small": "transpose twice: repeats in 1..{r}, probe <= {p}", "ktrans_ragged": "ragged transpose twice: widths in 1..{r1}, repeat <= {r}",
+               "koptimize": "optimize_width: row-runs in 1..{r1}, trailing empty rows <= {r1}", "krstrip": "rstrip: row-runs in 1..{r1}, trailing empty rows <= {r1}",
+               "krstrip_styled_rows": "rstrip with styled empty rows: data rows 1..{r1} + 1..{r1} styled rows",
+               "kget_area_negative_cols": "negative column numbers in areas: cell-runs in 1..{r}", "kget_area_negative_rows": "negative row numbers in areas: row-runs in 1..{r}"}
+
+
+def kget_obligations(names, quick=(), deep=True, encodes=None):
+    """reader obligations of h_kget: depth 0 (quick for the names listed in `quick`, else thorough) and,
+    with `deep`, the same at VERIF_DEPTH=1 (repeats to 3, positions to 6) in the thorough tier"""
+    out = []
+    enc = encodes or (KT_ENCODES[:2] + ["src/odfdo/table.py:Table readers (get_cell/row/cells/rows/values/column(s), traverse, iter_values, transpose, rstrip, optimize_width)"])
+    for fn in names:
+        s0, s1 = KGET_SECS[fn]
+        out.append(Obl(name=fn, module="h_kget", func=fn, timeout=max(120, s0 * 4), replay="r_h_kget:" + fn, tier="quick" if fn in quick else "thorough", weight=s0,
+                       bounds=KGET_BOUNDS[fn].format(r=2, r1=3, p=4, p1=5), encodes=enc, stubs=KT_STUBS))
+        if deep:
+            out.append(Obl(name=fn + "@d1", module="h_kget", func=fn, timeout=max(300, s1 * 3), replay="r_h_kget:" + fn, tier="thorough", weight=s1, env={"VERIF_DEPTH": "1"},
+                           bounds=KGET_BOUNDS[fn].format(r=3, r1=4, p=6, p1=7), encodes=enc, stubs=KT_STUBS))
+    return out
+
+
+def empty_table_obligations():
+    """tables without rows, or with rows but no column: the first write / the column that comes back"""
+    out = []
+    names = ["set_value", "set_cell (repeated)", "append_row (possibly a row without cells) then set_value", "set_row then append_column"]
+    for op in range(4):
+        out.append(Obl(name=f"kt_empty_first_write_{op}", module="h_ktab", func="kt_empty_first_write", timeout=400, replay="r_h_ktab:empty_first_write",
+                       env={"VERIF_EOP": str(op)}, extra={"op": op}, weight=55,
+                       bounds=f"Table() without width/height; first write: {names[op]}; x, y <= 3, inserted repeats <= 2, probe <= 5", encodes=KT_ENCODES, stubs=KT_STUBS))
+    out.append(Obl(name="kt_no_columns", module="h_ktab", func="kt_no_columns", timeout=300, replay="r_h_ktab:no_columns", weight=26,
+                   bounds="template with row-runs in 1..2 after deleting both columns; then set_value / append_column / insert_column / set_column (symbolic choice), x <= 2",
+                   encodes=KT_ENCODES, stubs=KT_STUBS))
+    return out
